@@ -533,3 +533,31 @@ Proof. vm_compute. reflexivity. Qed.
 Lemma long_password_sweep :
   forallb (fun n => forallb (msg_case LongPasswordError n) long_password_msgs) preceding_noise = true.
 Proof. vm_compute. reflexivity. Qed.
+
+Lemma error_mapping :
+  (forall chn netfn lun cmd rc, (rc =? 127) = false ->
+     receive (timeout_line chn netfn lun cmd) rc = Err TimeoutError) /\
+  forallb (fun n => forallb (msg_case ConnectionError n) connection_msgs) preceding_noise = true /\
+  forallb (fun n => forallb (msg_case LongPasswordError n) long_password_msgs) preceding_noise = true /\
+  (forall rc, rc <> 0 -> rc <> 127 -> ping_result rc = Err TimeoutError) /\ ping_result 0 = Ok tt.
+Proof.
+  split; [exact timeout_line_mapping|]. split; [exact connection_sweep|].
+  split; [exact long_password_sweep|]. split; [|reflexivity].
+  intros rc H0 H127. unfold ping_result. apply N.eqb_neq in H0, H127. now rewrite H0, H127.
+Qed.
+
+Lemma error_rules : forall line more rc, no_nl line = true -> (rc =? 127) = false ->
+  contains (B "failed") line = false ->
+  (timeout_match line = true -> receive (line ++ 10 :: more) rc = Err TimeoutError) /\
+  (timeout_match line = false -> contains (B "Unable to establish") line = true ->
+     receive (line ++ 10 :: more) rc = Err ConnectionError) /\
+  (timeout_match line = false -> contains (B "Unable to establish") line = false ->
+     cc_match line = None -> contains (B "Could not open device") line = false ->
+     contains (B "password is longer than") line = true ->
+     receive (line ++ 10 :: more) rc = Err LongPasswordError).
+Proof.
+  intros line more rc Hn Hrc Hf. repeat split; intros.
+  - now apply timeout_rule.
+  - now apply connection_rule.
+  - now apply long_password_rule.
+Qed.
